@@ -983,7 +983,8 @@ def finish(rep):
         },
         'assumptions': rep.assumptions or [
             'CPython 3.12 ast / re._parser / re._compiler (leaf character sets) are correct',
-            'the analyser itself (/verif/sa)',
+            'the analyser itself (/verif/sa), including its evaluator of the Python subset the analysed modules use (sa.heap; compared with CPython on tools/interp_cases)',
+            'CPython 3.12 re engine and str / bytes methods are correct where the evaluator applies them to decided texts of its model scenarios',
             'behaviour of third-party and stdlib callees is as documented'],
         'wall_s': round(wall, 3),
         'violations': len(new),
